@@ -204,6 +204,69 @@ func (p *childPool) close() {
 
 var pool *childPool
 
+// crashGate bounds the time spent on re-spawning reader processes on a tree where some damage kind kills the reader
+// every time: once the last `limit` executed cases containing kind K all crashed the reader, only every `resample`-th
+// further case containing K is executed (a case that does not crash resets the streak).  Left-out cases are logged
+// as Skipped and are not part of any verdict.  It never triggers on a tree whose reader does not crash.
+type crashGate struct {
+	mu       sync.Mutex
+	limit    int
+	resample int
+	streak   map[string]int
+	seen     map[string]int
+}
+
+var gate *crashGate
+
+func distinctDamage(kinds []string) []string {
+	out := []string{}
+	for _, k := range kinds {
+		if k == "ok" {
+			continue
+		}
+		dup := false
+		for _, o := range out {
+			dup = dup || o == k
+		}
+		if !dup {
+			out = append(out, k)
+		}
+	}
+	return out
+}
+
+func (g *crashGate) skip(kinds []string) bool {
+	if g == nil || g.limit <= 0 {
+		return false
+	}
+	g.mu.Lock()
+	defer g.mu.Unlock()
+	for _, k := range distinctDamage(kinds) {
+		if g.streak[k] >= g.limit {
+			g.seen[k]++
+			if g.resample <= 0 || g.seen[k]%g.resample != 0 {
+				return true
+			}
+		}
+	}
+	return false
+}
+
+func (g *crashGate) record(kinds []string, crashed bool) {
+	if g == nil || g.limit <= 0 {
+		return
+	}
+	g.mu.Lock()
+	defer g.mu.Unlock()
+	for _, k := range distinctDamage(kinds) {
+		if crashed {
+			g.streak[k]++
+		} else {
+			g.streak[k] = 0
+		}
+	}
+}
+
 func (w *worker) ensureChild() error {
 	if w.child != nil {
 		return nil
@@ -240,11 +303,7 @@ func (w *worker) get(req *getReq) (resp getResp, crashed bool, detail string, er
 		err = fmt.Errorf("child not accepting requests: %v; stderr: %s", werr, w.child.stderr.String())
 		return
 	}
-	t0 := time.Now()
 	ans, rerr := w.child.out.ReadBytes('\n')
-	if os.Getenv("EB_TIMING") != "" {
-		fmt.Fprintln(os.Stderr, "roundtrip", time.Since(t0), rerr)
-	}
 	if rerr != nil {
 		// process died: collect its exit status and the first lines of the panic
 		w.child.in.Close()
@@ -342,8 +401,14 @@ func (w *worker) runTrace(ctx context.Context, tp *traceplan) ([]event, error) {
 	bc.sum = hex.EncodeToString(s[:])
 
 	evs := []event{{"ev": "Setup", "d": tp.D, "p": tp.P, "repair": tp.Repair, "size": tp.Size}}
-	for si := range tp.Steps {
+	var lastKinds []string
+	for si := 0; si < len(tp.Steps); si++ {
 		st := &tp.Steps[si]
+		if st.Op == "damage" && st.Skippable && si+1 < len(tp.Steps) && tp.Steps[si+1].Op == "read" && gate.skip(st.Kinds) {
+			evs = append(evs, event{"ev": "Skipped", "kinds": st.Kinds})
+			si++
+			continue
+		}
 		switch st.Op {
 		case "write":
 			e, err := w.doWrite(ctx, bc, st)
@@ -356,11 +421,15 @@ func (w *worker) runTrace(ctx context.Context, tp *traceplan) ([]event, error) {
 			if err != nil {
 				return nil, err
 			}
+			lastKinds = st.Kinds
 			evs = append(evs, e)
 		case "read":
 			e, err := w.doRead(bc)
 			if err != nil {
 				return nil, err
+			}
+			if lastKinds != nil {
+				gate.record(lastKinds, e["res"] == "crash")
 			}
 			evs = append(evs, e)
 		case "inspect":
